@@ -151,7 +151,7 @@ func genDocument(g *gen.G, maxPolicies int, allowBig bool, allowDamage bool) *do
 var junk = []string{"#", "$", "=", "|", "&", "'", "`", "\\", "~", "?", "%", "^"}
 
 func (d *document) damage(g *gen.G) {
-	kinds := []string{"bad-utf8", "nul", "drop-semicolon", "unterminated-string", "unterminated-comment", "bad-escape", "junk-token", "truncated-rune"}
+	kinds := []string{"bad-utf8", "nul", "drop-semicolon", "unterminated-string", "unterminated-comment", "bad-escape", "junk-token", "truncated-rune", "bom-at-start", "odd-rune"}
 	k := kinds[g.T.Intn(len(kinds))]
 	data := d.data
 	pos := g.T.Intn(len(data) + 1)
@@ -169,6 +169,13 @@ func (d *document) damage(g *gen.G) {
 		ins(pos, []byte{0})
 	case "truncated-rune":
 		ins(pos, []byte{0xe6, 0x97})
+	case "bom-at-start":
+		pos = 0
+		ins(0, []byte{0xEF, 0xBB, 0xBF})
+	case "odd-rune":
+		// characters that are legal UTF-8 but not legal between tokens
+		odd := []string{"\uFEFF", "\u00A0", "\u2028", "\u200B", "\u0085", "\v", "\f"}
+		ins(pos, []byte(odd[g.T.Intn(len(odd))]))
 	case "junk-token":
 		ins(pos, []byte(junk[g.T.Intn(len(junk))]))
 	case "unterminated-comment":
